@@ -22,7 +22,8 @@ class _Unknown:
 UNKNOWN = _Unknown()
 
 SAFE_METHODS = {"startswith", "endswith", "lower", "upper", "split", "replace", "strip", "lstrip", "rstrip", "join",
-                "format", "get", "keys", "values", "items", "count", "index", "find"}
+                "format", "get", "keys", "values", "items", "count", "index", "find",
+                "isdisjoint", "issubset", "issuperset", "union", "intersection", "difference"}
 
 
 class Evaluator:
@@ -54,7 +55,7 @@ class Evaluator:
                 if base is not UNKNOWN:
                     if isinstance(base, dict) and n.attr in base:
                         return base[n.attr]
-                    if isinstance(base, (str, list, tuple, dict)) and n.attr in SAFE_METHODS:
+                    if isinstance(base, (str, list, tuple, dict, set, frozenset)) and n.attr in SAFE_METHODS and hasattr(base, n.attr):
                         return getattr(base, n.attr)
                 if self.attr_hook is not None:
                     return self.attr_hook(d if d is not None else ast.unparse(n), n)
@@ -119,6 +120,13 @@ class Evaluator:
                     return l + r
                 if isinstance(n.op, ast.Mod):
                     return l % r
+                if isinstance(l, (set, frozenset)) and isinstance(r, (set, frozenset)):
+                    if isinstance(n.op, ast.BitAnd):
+                        return l & r
+                    if isinstance(n.op, ast.BitOr):
+                        return l | r
+                    if isinstance(n.op, ast.Sub):
+                        return l - r
             except TypeError:
                 return UNKNOWN
             return UNKNOWN
@@ -146,6 +154,11 @@ class Evaluator:
                 return UNKNOWN
         if isinstance(n, ast.Call):
             d = self.dotted(n.func)
+            hook = getattr(self, "call_hook", None)
+            if hook is not None:
+                hv = hook(d, n)
+                if hv is not None:
+                    return hv
             args = [self.ev(a) for a in n.args]
             if d in self.funcs:
                 return self.funcs[d](*args)
@@ -174,6 +187,42 @@ class Evaluator:
                     except Exception:
                         return UNKNOWN
             return UNKNOWN
+        if isinstance(n, ast.Dict):
+            out = {}
+            for k, v in zip(n.keys, n.values):
+                if k is None:
+                    inner = self.ev(v)
+                    if inner is UNKNOWN or not isinstance(inner, dict):
+                        return UNKNOWN
+                    out.update(inner)
+                    continue
+                kk = self.ev(k)
+                if kk is UNKNOWN:
+                    return UNKNOWN
+                try:
+                    out[kk] = self.ev(v)
+                except TypeError:
+                    return UNKNOWN
+            return out
+        if isinstance(n, ast.DictComp):
+            pairs = self.comprehension(n, elt=lambda: (self.ev(n.key), self.ev(n.value)))
+            if pairs is UNKNOWN or any(p is UNKNOWN or p[0] is UNKNOWN for p in pairs):
+                return UNKNOWN
+            try:
+                return dict(pairs)
+            except TypeError:
+                return UNKNOWN
+        if isinstance(n, (ast.ListComp, ast.GeneratorExp)):
+            vals = self.comprehension(n)
+            return UNKNOWN if vals is UNKNOWN else list(vals)
+        if isinstance(n, ast.SetComp):
+            vals = self.comprehension(n)
+            if vals is UNKNOWN or any(v is UNKNOWN for v in vals):
+                return UNKNOWN
+            try:
+                return set(vals)
+            except TypeError:
+                return UNKNOWN
         if isinstance(n, ast.IfExp):
             t = self.ev(n.test)
             if t is UNKNOWN:
@@ -192,33 +241,54 @@ class Evaluator:
             return out
         return UNKNOWN
 
-    def comprehension(self, comp):
-        if len(comp.generators) != 1:
-            return UNKNOWN
-        g = comp.generators[0]
-        it = self.ev(g.iter)
-        if it is UNKNOWN or not isinstance(g.target, ast.Name):
-            return UNKNOWN
+    def comprehension(self, comp, elt=None):
+        """values of a comprehension / generator expression (any number of generators, name or tuple targets) as a list;
+        `elt` overrides the element evaluator (used for dict comprehensions).  UNKNOWN if an iterable is not determined."""
+        elt = elt or (lambda: self.ev(comp.elt))
         out = []
-        saved = self.env.get(g.target.id, None)
-        had = g.target.id in self.env
-        try:
-            for x in it:
-                self.env[g.target.id] = x
-                ok = True
+
+        def bind(target, x):
+            if isinstance(target, ast.Name):
+                self.env[target.id] = x
+                return True
+            if isinstance(target, (ast.Tuple, ast.List)):
+                if not isinstance(x, (tuple, list)) or len(x) != len(target.elts):
+                    return False
+                return all(bind(t, v) for t, v in zip(target.elts, x))
+            return False
+
+        def rec(i, ok):
+            if i == len(comp.generators):
+                out.append(elt() if ok is True else UNKNOWN)
+                return True
+            g = comp.generators[i]
+            it = self.ev(g.iter)
+            if it is UNKNOWN:
+                return False
+            try:
+                items = list(it)
+            except TypeError:
+                return False
+            for x in items:
+                if not bind(g.target, x):
+                    return False
+                ok2 = ok
                 for c in g.ifs:
                     cv = self.ev(c)
                     if cv is UNKNOWN:
-                        ok = UNKNOWN
+                        ok2 = UNKNOWN
                     elif not cv:
-                        ok = False
+                        ok2 = False
                         break
-                if ok is False:
+                if ok2 is False:
                     continue
-                out.append(self.ev(comp.elt) if ok is True else UNKNOWN)
+                if not rec(i + 1, ok2):
+                    return False
+            return True
+        saved = dict(self.env)
+        try:
+            good = rec(0, True)
         finally:
-            if had:
-                self.env[g.target.id] = saved
-            else:
-                self.env.pop(g.target.id, None)
-        return out
+            self.env.clear()
+            self.env.update(saved)
+        return out if good else UNKNOWN
